@@ -87,6 +87,18 @@ CHECKS["C15"] = dict(
     note=TRUST + " kin-openapi's loader guarantees (non-nil *Ref wrappers with non-nil Value) are assumed; text/template's safeCall recovers panics.",
     technique="static analysis: SSA dominance-based nil-guard rule with interprocedural summaries + compiler prove pass residue + call-graph confinement", design="§4 C15")
 
+CHECKS["C04"] = dict(
+    text="Every generated request parser is decomposed exactly at the top level; each query/header parameter block is decided by a path-sensitive typestate analysis over its CFG "
+         "(finite state: present / cardinality / conversion-failed / stored) plus def-use provenance: absent+required, repeated scalar and failed conversion must end in an error "
+         "naming the parameter; absent optional stores nothing; a present value is stored only into its own field, through the converter (callee + bit size/base/layout constants) "
+         "the declared type demands; blocks are in bijection with the declared parameters (independent oracle). The exact lexical space of strconv/time is their contract, not decided.",
+    note=TRUST + S3NOTE, technique="static analysis: go/cfg path-sensitive typestate + def-use provenance + table comparison with spec oracle", design="§4 C04")
+CHECKS["C05"] = dict(
+    text="The path section of every generated parser is decompiled to a strip/extract pattern that must equal base path + template of the operation its handler type declares, with the "
+         "router's base constant and the dispatching leaf's template cross-checked (two independently generated siblings); every extraction rejects the empty segment naming the "
+         "parameter and converts through the declared converter (same typestate machinery as C04). Together with C03 this ties each value to the segment at its template position.",
+    note=TRUST + S3NOTE, technique="static analysis: AST decompilation to a path pattern + sibling cross-check + typestate/def-use on the conversion", design="§4 C05")
+
 NA_REASON = {}
 DEFAULT_NA = "not claimed yet: static checker for this property is still under construction (design in DESIGN.md §4)"
 
